@@ -5,6 +5,7 @@ import (
 	"strconv"
 	"strings"
 	"unicode"
+	"unicode/utf8"
 )
 
 // Binding strength levels of the PEG syntax (doc.go / grammar/pigeon.peg):
@@ -190,14 +191,19 @@ func LitWant(e *Expr) string {
 }
 
 // spForm is the escape form the spelling seed sp gives to rune r: 0 canonical, 1 octal,
-// 2 \x, 3 \u, 4 \U.
+// 2 \x, 3 \u, 4 \U, 5 the rune itself when it is not ASCII (also U+FFFD, symbols, marks).
 func spForm(sp int, r rune) int {
 	if sp == 0 {
 		return 0
 	}
 	h := uint32(sp)*2654435761 + uint32(r)*40503
 	h ^= h >> 13
-	return int(h % 5)
+	return int(h % 6)
+}
+
+// rawOK: the rune can stand for itself in grammar source (form 5).
+func rawOK(r rune) bool {
+	return r >= 0x80 && r != 0x85 && r != 0x2028 && r != 0x2029 && utf8.ValidRune(r) && r != 0xfeff
 }
 
 // litSpelled spells a literal value (valid UTF-8) as its spelling seed says: single-quoted
@@ -238,6 +244,8 @@ func litSpelled(e *Expr) string {
 			fmt.Fprintf(&b, `\u%04x`, r)
 		case form == 3 || form == 4:
 			fmt.Fprintf(&b, `\U%08x`, r)
+		case form == 5 && rawOK(r):
+			b.WriteString(enc)
 		default:
 			q := strconv.Quote(enc)
 			q = q[1 : len(q)-1]
@@ -264,6 +272,8 @@ func classRuneSp(sp int, r rune) string {
 		return fmt.Sprintf(`\u%04x`, r)
 	case form == 4 || form == 3:
 		return fmt.Sprintf(`\U%08x`, r)
+	case form == 5 && rawOK(r):
+		return string(r)
 	}
 	return classRune(r)
 }
